@@ -283,6 +283,109 @@ static void extractSweep(Ctx& c, const std::string& name)
 	}
 }
 
+// ---- maps: the pair (key, value) is transferred as a whole. Key nothrow-movable, mapped value copy-only with a copy constructor
+// that can throw: the value's relocation is the fallible step in the middle of the transfer of ONE element (MapKeyValueTraits::
+// Relocate), in every step of MergeTo, in Extract and in the re-insertion of an extracted pair.
+struct NoExtraHM : public momo::HashMapSettings { static const momo::ExtraCheckMode extraCheckMode = momo::ExtraCheckMode::nothing; };
+struct NoExtraTM : public momo::TreeMapSettings { static const momo::ExtraCheckMode extraCheckMode = momo::ExtraCheckMode::nothing; };
+template<typename M> static std::vector<uint32_t> mapKeys(M& m) { std::vector<uint32_t> v; for (auto ref : m) v.push_back(idOf(ref.key)); return v; }
+// every stored pair is a live key with its own live value, and the key is found under its own name
+template<typename M> static std::string mapDefect(M& m)
+{
+	for (auto ref : m) {
+		if (ref.key.state != 0xA11CE) return fmt("the key object %u inside the container is not alive (state %x)", idOf(ref.key), ref.key.state);
+		if (ref.value.state != 0xA11CE) return fmt("the value object of key %u is not alive (state %x)", idOf(ref.key), ref.value.state);
+		if (idOf(ref.value) != idOf(ref.key) + 5000) return fmt("key %u carries the value %u of another key", idOf(ref.key), idOf(ref.value));
+	}
+	std::vector<uint32_t> ks = mapKeys(m);
+	for (uint32_t k : ks) { auto it = m.Find(ElemNM(k)); if (it == m.GetEnd() || idOf(it->key) != k) return fmt("stored key %u is not found by Find", k); }
+	if (ks.size() != m.GetCount()) return fmt("GetCount %zu but the traversal visits %zu pairs", m.GetCount(), ks.size());
+	return "";
+}
+
+template<typename Src, typename Dst>
+static void mapMergeSweep(Ctx& c, const std::string& name, bool functorFaults, unsigned pattern)
+{
+	for (int m = -1; m < (functorFaults ? 3 : 2); ++m) {
+		for (long k = 0; k < 800; ++k) {
+			bool threw = false, fired = false;
+			{
+				std::unique_ptr<Src> bs(new Src()); std::unique_ptr<Dst> bd(new Dst());
+				Src& src = *bs; Dst& dst = *bd;
+				for (unsigned i = 0; i < 24; ++i) { uint32_t ks = (pattern == 0) ? i : (pattern == 1 ? 1000 + i : i * 2); src.Insert(ElemNM(ks), ElemCO(ks + 5000)); }
+				if (pattern != 3) for (unsigned i = 0; i < 18; ++i) { uint32_t kd = (pattern == 0) ? 1000 + i : (pattern == 1 ? i : i * 3); dst.Insert(ElemNM(kd), ElemCO(kd + 5000)); }
+				std::vector<uint32_t> all = mapKeys(src); { auto d = mapKeys(dst); all.insert(all.end(), d.begin(), d.end()); }
+				std::vector<uint32_t> dstBefore = mapKeys(dst);
+				long live0 = ec().live;
+				if (m >= 0) arm((Mode)m, k);
+				try { src.MergeTo(dst); }
+				catch (const std::bad_alloc&) { threw = true; } catch (const std::runtime_error&) { threw = true; } catch (const std::domain_error&) { threw = true; }
+				if (m >= 0) fired = disarm((Mode)m);
+				c.stats.evaluations++;
+				std::string what = fmt("%s pattern %u, %s failure #%ld", name.c_str(), pattern, m < 0 ? "no" : modeName[m], k);
+				std::vector<uint32_t> s1 = mapKeys(src), d1 = mapKeys(dst);
+				std::vector<uint32_t> un = s1; un.insert(un.end(), d1.begin(), d1.end());
+				std::sort(un.begin(), un.end()); std::vector<uint32_t> ex = all; std::sort(ex.begin(), ex.end());
+				if (un != ex) c.fail("C10 conserve: %s: src ⊎ dst changed: before {%s} after src {%s} dst {%s}", what.c_str(), show(ex).c_str(), show(s1).c_str(), show(d1).c_str());
+				if (hasDup(d1)) c.fail("C10 unique: %s: duplicate key in the destination", what.c_str());
+				if (!subsetOf(dstBefore, d1)) c.fail("C10 conserve: %s: the destination lost a pair it had", what.c_str());
+				std::string ds = mapDefect(src), dd = mapDefect(dst);
+				if (!ds.empty()) c.fail("C10 valid: %s: source: %s", what.c_str(), ds.c_str());
+				if (!dd.empty()) c.fail("C10 valid: %s: destination: %s", what.c_str(), dd.c_str());
+				if (ec().live != live0) c.fail("C10 one-place: %s: %ld key/value objects alive, %ld before the merge (an object of a transferred pair was duplicated or lost)", what.c_str(), ec().live, live0);
+				if (threw) { c.stats.count("mapmerge.threw"); c.stats.nontrivial(what);
+					try { src.MergeTo(dst); src.Insert(ElemNM(77777), ElemCO(82777)); dst.Insert(ElemNM(88888), ElemCO(93888)); } catch (...) { c.fail("C10 usable: %s", what.c_str()); } }
+			}
+			if (!mm().live.empty()) { c.fail("C03 leak: %s: %zu blocks outstanding", name.c_str(), mm().live.size()); mm().live.clear(); }
+			if (mm().badDealloc) { c.fail("C03 dealloc: %s: bad deallocation", name.c_str()); mm().badDealloc = 0; }
+			if (ec().live != 0) { c.fail("C03 elements: %s pattern %u %s failure #%ld: %ld key/value objects alive after destruction (negative = destroyed twice)", name.c_str(), pattern, m < 0 ? "no" : modeName[m], k, ec().live); ec().live = 0; }
+			if (m < 0 || (!threw && !fired)) break;
+		}
+	}
+}
+
+template<typename Map>
+static void mapExtractSweep(Ctx& c, const std::string& name)
+{
+	for (int m = 0; m < 2; ++m) for (long k = 0; k < 200; ++k) {
+		bool threw = false, fired = false;
+		{
+			std::unique_ptr<Map> ba(new Map()), bb(new Map());
+			Map& a = *ba; Map& b = *bb;
+			for (unsigned i = 0; i < 12; ++i) a.Insert(ElemNM(i), ElemCO(i + 5000));
+			for (unsigned i = 0; i < 5; ++i) b.Insert(ElemNM(i * 2), ElemCO(i * 2 + 5000));
+			long live0 = ec().live;
+			typename Map::ExtractedPair h1, h2;
+			arm((Mode)m, k);
+			bool in1 = false, in2 = false; int stage = 0;
+			try {
+				a.Remove(typename Map::ConstIterator(a.Find(ElemNM(11))), h1); stage = 1;	// the last element: it is moved out of its slot
+				a.Remove(typename Map::ConstIterator(a.Find(ElemNM(4))), h2); stage = 2;
+				in1 = b.Insert(std::move(h1)).inserted; stage = 3;
+				in2 = b.Insert(std::move(h2)).inserted; stage = 4;
+			}
+			catch (const std::bad_alloc&) { threw = true; } catch (const std::runtime_error&) { threw = true; }
+			fired = disarm((Mode)m);
+			c.stats.evaluations++;
+			std::string what = fmt("%s, %s failure #%ld (stage %d)", name.c_str(), modeName[m], k, stage);
+			// each of the pairs 11 and 4 of `a` lives in exactly one of a, its handle, b  (b had its own pair 4 from the start)
+			int places11 = (int)a.ContainsKey(ElemNM(11)) + (int)!h1.IsEmpty() + (int)b.ContainsKey(ElemNM(11));
+			int places4 = (int)a.ContainsKey(ElemNM(4)) + (int)!h2.IsEmpty();
+			if (places11 != 1) c.fail("C10 one-place: %s: pair 11 lives in %d places (source / handle / destination)", what.c_str(), places11);
+			if (places4 != 1) c.fail("C10 one-place: %s: pair 4 of the source lives in %d places (source / handle); the destination has its own", what.c_str(), places4);
+			if (!threw && (!in1 || in2)) c.fail("C10 handle: %s: re-insertion flags %d %d", what.c_str(), (int)in1, (int)in2);
+			std::string da = mapDefect(a), db = mapDefect(b);
+			if (!da.empty()) c.fail("C10 valid: %s: source: %s", what.c_str(), da.c_str());
+			if (!db.empty()) c.fail("C10 valid: %s: destination: %s", what.c_str(), db.c_str());
+			if (ec().live != live0) c.fail("C10 one-place: %s: number of key/value objects changed (%ld -> %ld)", what.c_str(), live0, ec().live);
+			if (threw) { c.stats.count("mapextract.threw"); c.stats.nontrivial(what); }
+		}
+		if (!mm().live.empty()) { c.fail("C03 leak: %s: %zu blocks outstanding", name.c_str(), mm().live.size()); mm().live.clear(); }
+		if (ec().live != 0) { c.fail("C03 elements: %s %s failure #%ld: %ld key/value objects alive after destruction (negative = destroyed twice)", name.c_str(), modeName[m], k, ec().live); ec().live = 0; }
+		if (!threw && !fired) break;
+	}
+}
+
 int main(int argc, char** argv)
 {
 	Ctx c = parseArgs(argc, argv);
@@ -323,6 +426,21 @@ int main(int argc, char** argv)
 		mergeDrained<T42, ElemNM>(c, rng, "TreeSet<cap4 step2,nothrow-move>", T, 60, 9);
 		mergeDrained<T61, ElemNM>(c, rng, "TreeSet<cap6 step1 indexed,nothrow-move>", T, 80, 13);
 		mergeDrained<T32, ElemNM>(c, rng, "TreeSet<cap32,nothrow-move>", T, 300, 40);
+	}
+	{
+		typedef momo::HashMap<ElemNM, ElemCO, ThrowHashTraits<ElemNM, momo::HashBucketLimP4<>>, FaultMM, momo::HashMapKeyValueTraits<ElemNM, ElemCO, FaultMM>, NoExtraHM> HM;
+		typedef momo::HashMap<ElemNM, ElemCO, ThrowHashTraits<ElemNM, momo::HashBucketOpen8>, FaultMM, momo::HashMapKeyValueTraits<ElemNM, ElemCO, FaultMM>, NoExtraHM> HM8;
+		typedef momo::TreeMap<ElemNM, ElemCO, ThrowTreeTraits<ElemNM, N4>, FaultMM, momo::TreeMapKeyValueTraits<ElemNM, ElemCO, FaultMM>, NoExtraTM> TM;
+		for (unsigned p = 0; p < 4; ++p) {
+			mapMergeSweep<HM, HM>(c, "HashMap->HashMap nothrow-move key, copy-only value", true, p);
+			mapMergeSweep<HM8, HM8>(c, "HashMap<Open8>->HashMap<Open8> nothrow-move key, copy-only value", true, p);
+			mapMergeSweep<TM, TM>(c, "TreeMap->TreeMap nothrow-move key, copy-only value", true, p);
+			mapMergeSweep<TM, HM>(c, "TreeMap->HashMap nothrow-move key, copy-only value", true, p);
+			mapMergeSweep<HM, TM>(c, "HashMap->TreeMap nothrow-move key, copy-only value", true, p);
+		}
+		mapExtractSweep<HM>(c, "HashMap<nothrow-move key, copy-only value> extract/re-insert");
+		mapExtractSweep<HM8>(c, "HashMap<Open8, nothrow-move key, copy-only value> extract/re-insert");
+		mapExtractSweep<TM>(c, "TreeMap<nothrow-move key, copy-only value> extract/re-insert");
 	}
 	extractSweep<HNM, ElemNM>(c, "HashSet<nothrow-move> extract/re-insert");
 	extractSweep<HCO, ElemCO>(c, "HashSet<copy-only> extract/re-insert");
